@@ -21,7 +21,14 @@ INTERVALS = [0.125, 0.25, 0.375, 0.5, 0.7]
 MAX_ITER = 4000
 
 
-def spec_for(gtype):
+def spec_for(gtype, variant=None):
+    if variant == "extinct":
+        # irreversible A -> B without diffusion: a stochastic run ends because nothing can happen any more
+        sp = spec_for(gtype)
+        sp["species"] = [{"label": "A", "D": 0.0}, {"label": "B", "D": 0.0}]
+        sp["reactions"] = [{"eq": [[["A", 1]], [["B", 1]]], "kf": 4.0, "kr": 0.0}]
+        sp["state"] = [2.0, 1.0, 0.0, 0.0]
+        return sp
     base = {"species": [{"label": "A", "D": 0.5}, {"label": "B", "D": 0.25}],
             "reactions": [{"eq": [[["A", 1]], [["B", 1]]], "kf": 0.8, "kr": 0.1}], "envs": [""],
             "state": [6.0, 3.0, 2.0, 5.0]}
@@ -34,13 +41,26 @@ def spec_for(gtype):
 
 
 def mk_script(case, policy=None):
-    sc = {"system": spec_for(case["gtype"]), "t_sample": case["t_sample"], "time_step": case.get("dt", DT),
+    sc = _mk_script_dict(case, policy)
+    f = case.get("scale")
+    if case.get("slow"):
+        f = 1000.0
+    if f:
+        for r in sc["system"]["reactions"]:
+            r["kf"], r["kr"] = r["kf"] / f, r["kr"] / f
+        for sp_ in sc["system"]["species"]:
+            sp_["D"] = sp_["D"] / f
+    return models.build_script(sc)
+
+
+def _mk_script_dict(case, policy=None):
+    sc = {"system": spec_for(case["gtype"], case.get("variant")), "t_sample": case["t_sample"], "time_step": case.get("dt", DT),
           "policy": policy or case["policy"], "seed": case.get("seed", 0), "isp": "none"}
     if case.get("t_max", "default") != "default":
         sc["t_max"] = case["t_max"]
     if "interval" in case:
         sc["interval"] = case["interval"]
-    return models.build_script(sc)
+    return sc
 
 
 def drive(engine, script, ops=None):
@@ -82,7 +102,7 @@ def _baseline(key):
 
 
 def baseline(case):
-    k = {q: case[q] for q in ("engine", "gtype", "t_sample", "t_max", "seed", "dt", "interval") if q in case}
+    k = {q: case[q] for q in ("engine", "gtype", "t_sample", "t_max", "seed", "dt", "interval", "variant", "slow", "scale") if q in case}
     # the step sequence does not depend on the request list except through the default t_max
     if k.get("t_max", "default") != "default":
         k["t_sample"] = [0]
@@ -134,6 +154,13 @@ def check_case(case):
         return [("C09:baseline:unexpected-exception", "%s: %s" % (type(e).__name__, e))]
     nsp, ncell = 2, 2
     fixed = case["engine"] != "gillespie"
+    # records made by the per-iteration policy are one per step: strictly increasing times, as many as steps + 1
+    if any(not b > a for a, b in zip(T, T[1:])):
+        out.append(("C09:baseline:%s:per-iteration-times-not-strictly-increasing" % case["engine"], "times %r" % (T[-6:],)))
+        return out
+    if "ops" not in case and len(T) - 1 > n_iter_base:
+        out.append(("C09:baseline:%s:more-records-than-iterations" % case["engine"], "%d records for %d iterate() calls" % (len(T), n_iter_base)))
+        return out
     exact = bool(case.get("exact", True))
     dt = as_seconds(case.get("dt", DT))
     reqs = req_seconds(case["t_sample"])
@@ -182,8 +209,8 @@ def check_case(case):
         required, allowed = sampler.contract(T, reqs, case["policy"], interval=case.get("interval"), t_max=tmax_v, exact=exact)
         for cls, msg in sampler.check_records(T, idx, required, allowed):
             out.append(("C09:%s:%s" % (tag, cls), msg + " | requests %r t_max %r" % (reqs, tmax_v)))
-        if idx and idx[0] == 0 and d[0] != spec_for(case["gtype"])["state"]:
-            out.append(("C09:%s:t0-record" % tag, "record at t=0 is %r, initial state %r" % (d[0], spec_for(case["gtype"])["state"])))
+        if idx and idx[0] == 0 and d[0] != spec_for(case["gtype"], case.get("variant"))["state"]:
+            out.append(("C09:%s:t0-record" % tag, "record at t=0 is %r, initial state %r" % (d[0], spec_for(case["gtype"], case.get("variant"))["state"])))
     else:
         # explicit sample() calls mixed in
         ops = case["ops"]
@@ -263,6 +290,33 @@ def gen_cases(tier, seed0):
                     k += 1
                     yield {"sub": "simple", "policy": pol, "engine": e, "gtype": g, "t_sample": [0, 0.5],
                            "t_max": tm, "seed": sd(e, k), "exact": True}
+    # stochastic runs that end by extinction (total propensity 0) before t_max, under every policy
+    for e in ("gillespie", "tauleap"):
+        for g in gtypes:
+            for pol, extra in (("on_iteration", {}), ("on_t_sample", {}), ("on_interval", {"interval": 0.125}), ("no_sampling", {})):
+                for s_ in seeds:
+                    k += 1
+                    c = {"sub": "extinct", "policy": pol, "engine": e, "gtype": g, "t_sample": [0, 0.125, 0.5, 3.0], "t_max": 4.0,
+                         "seed": s_, "exact": True, "variant": "extinct"}
+                    c.update(extra)
+                    yield c
+    # long intervals: interval = n steps for every n up to 100 (dt = 1): the record must sit on the step that lands on n, 2n, 3n
+    for e in ("euler", "tauleap"):
+        for g in gtypes:
+            for n in range(1, 101):
+                if tier == "quick" and e == "tauleap" and n % 2:
+                    continue
+                k += 1
+                yield {"sub": "interval-long", "policy": "on_interval", "engine": e, "gtype": g, "t_sample": [0], "t_max": 3.0 * n + 0.5,
+                       "interval": float(n), "dt": 1.0, "seed": sd(e, k), "exact": True, "slow": True}
+    # the same contract at other time scales (dt = 2^-42, 2^22): thresholds must not be absolute
+    for e in ("euler", "tauleap"):
+        for scale in (2.0 ** -42, 2.0 ** 22):
+            for lst in _lists(2, [0.0, 0.125, 0.25, 0.5, 0.625], 1):
+                for tm in ("default", 0.5, 0.625):
+                    k += 1
+                    yield {"sub": "scaled", "policy": "on_t_sample", "engine": e, "gtype": "grid", "t_sample": [v * scale for v in lst],
+                           "t_max": tm if tm == "default" else tm * scale, "dt": DT * scale, "seed": sd(e, k), "exact": True, "scale": scale}
     # time quantities given in other units (explicit quantities; script units stay default)
     for e in ("euler", "gillespie"):
         for unit, f in (("ms", 1000.0), ("min", 1 / 60.0), ("h", 1 / 3600.0)):
@@ -316,7 +370,7 @@ def run(ctx):
     _CASES = list(gen_cases(ctx.tier, ctx.seed))
     eng.so_path("plain")
     done = 0
-    for job, r in pool.pmap_split(_work, len(_CASES), 150, timeout=300):
+    for job, r in pool.pmap_split(_work, len(_CASES), 150, timeout=120, single_timeout=20):
         if isinstance(r, pool.Crash) and r.kind == "skipped":
             ctx.exhaustive = False
             if "re-run-of-failed-chunks-capped" not in ctx.caps:
